@@ -611,12 +611,22 @@ def run_case(idx, rng, P, rep):
                     except (ValueError, ZeroDivisionError):
                         raised_last.add((si, pn))
             finally:
+                n_deliv_exit = len(deliveries)
                 try:
                     cm.__exit__(None, None, None)
                 except (ValueError, ZeroDivisionError):
                     # restoring a link whose reference currently resolves to an invalid value: outcome not specified
                     ok_exit = False
                     rep.count('update_context_restore_raised')
+                # leaving the block puts values and links back as ONE change per parameter: a watcher that wants every
+                # assignment hears of each restored parameter at most once (and of nothing else)
+                at_exit = deliveries[n_deliv_exit:]
+                rep.count('update_context_exit_delivery_checks')
+                for dk in set(at_exit):
+                    if ok_exit and at_exit.count(dk) > 1 and dk[0] == ti and dk[1] in [it_['tp'] for it_ in items]:
+                        viol('update-context-exit-announced-twice', f'leaving update({[it_["tp"] for it_ in items]}) announced target{dk[0]}.{dk[1]} '
+                             f'{at_exit.count(dk)} times')
+                        break
             # restored
             for it in items:
                 tp = it['tp']
